@@ -263,15 +263,29 @@ class DistributedRateLimiter(Entity):
             return False
 
         # Increment counter
-        new_count = current_count + 1
         self._store_writes += 1
-        write_gen = self._backing_store.put(key, new_count)
-        try:
-            while True:
-                delay = next(write_gen)
-                yield delay
-        except StopIteration:
-            pass
+        increment = getattr(self._backing_store, "increment", None)
+        if increment is not None:
+            # Atomic increment (like Redis INCR): requests that read the same
+            # count while another write was in flight still get distinct slots,
+            # so the losers of the race are rejected instead of over-admitted.
+            new_count = yield from increment(key)
+            if new_count > self._global_limit:
+                self._last_known_global_count = new_count
+                self._global_rejections += 1
+                self.global_counts.append((now, new_count))
+                return False
+        else:
+            # Store without an atomic increment: plain read-then-write
+            # (only exact when requests do not overlap the store round trip).
+            new_count = current_count + 1
+            write_gen = self._backing_store.put(key, new_count)
+            try:
+                while True:
+                    delay = next(write_gen)
+                    yield delay
+            except StopIteration:
+                pass
 
         self._local_count += 1
         self._last_known_global_count = new_count
